@@ -3,19 +3,28 @@
    representable, else reverts; for ALL operand values of the type.  GenVenom.v is regenerated every run. *)
 From Coq Require Import ZArith Bool List String Lia.
 From Verif Require Import Base.Word256 C03.LIR C03.VSL C03.ArithSpec C03.WordArith C03.TypeLemmas C03.ArithModel
-  C03.TieBase C03.GenVenom C03.LegacyExact C03.VenomExact C03.TieVenom.
+  C03.TieBase C03.VSubst C03.GenVenom C03.LegacyExact C03.VenomExact C03.TieVenom.
 Import ListNotations.
 Open Scope Z_scope.
 
-Theorem venom_arith_exact : forall op T t, In (op, T, t) venom_templates ->
-  forall x y, in_range T x -> in_range T y ->
+(* shape sh: 0 = operands in %1, %2; 1 = x is the literal lit; 2 = y is the literal lit *)
+Theorem venom_arith_exact : forall op T sh lit t, In (op, T, sh, lit, t) venom_templates ->
+  forall x y, in_range T x -> in_range T y -> (sh = 1 -> x = lit) -> (sh = 2 -> y = lit) ->
   vrun (venv2 x y) t = enc_out (arith_spec T op x y).
 Proof.
-  intros op T t HIn x y Hx Hy.
+  intros op T sh lit t HIn x y Hx Hy Lx Ly.
   pose proof tie_arith_venom as Tie. rewrite forallb_forall in Tie. specialize (Tie _ HIn).
   unfold vtie_one in Tie. apply andb_true_iff in Tie. destruct Tie as [Ok M].
-  apply ty_okb_ok in Ok.
-  destruct op; cbn [vmodel] in M; try discriminate M; apply vtemplate_eqb_eq in M; subst t.
+  apply andb_true_iff in Ok. destruct Ok as [Ok _]. apply ty_okb_ok in Ok.
+  assert (E : exists m, vmodel op T = Some m /\ vrun (venv2 x y) t = vrun (venv2 x y) m).
+  { destruct (vmodel op T) as [m|]; [|discriminate M]. exists m. split; [reflexivity|].
+    apply andb_true_iff in M. destruct M as [M N2]. apply andb_true_iff in M. destruct M as [M N1].
+    apply vtemplate_eqb_eq in M. subst t. unfold vshape.
+    destruct (Z.eqb_spec sh 1) as [S1|S1]; [|destruct (Z.eqb_spec sh 2) as [S2|S2]]; [| |reflexivity].
+    - rewrite <- (Lx S1). apply vrun_sub; [reflexivity | exact N1].
+    - rewrite <- (Ly S2). apply vrun_sub; [reflexivity | exact N2]. }
+  destruct E as [m [Em ->]].
+  destruct op; cbn [vmodel] in Em; try discriminate Em; injection Em as <-.
   - apply vsafe_add_exact; assumption.
   - apply vsafe_sub_exact; assumption.
   - apply vsafe_mul_exact; assumption.
@@ -25,7 +34,7 @@ Qed.
 Print Assumptions venom_arith_exact.
 
 Theorem venom_family_complete :
-  map fst venom_templates = vexpected_keys /\ List.length venom_templates = 325%nat.
+  map fst venom_templates = vexpected_keys /\ List.length venom_templates = 3605%nat.
 Proof. split; [exact family_complete_venom | reflexivity]. Qed.
 
 Theorem vclamp_basetype_iff_real : forall T t, In (T, t) venom_clamps ->
@@ -47,7 +56,8 @@ Definition vkey_eqb (a b : aop * nty) : bool :=
 Definition voutcome_eqb (a b : outcome) : bool :=
   match a, b with Val x, Val y => x =? y | Revert, Revert => true | _, _ => false end.
 Definition vhas_case (op : aop) (T : nty) (x y : Z) (o : outcome) : bool :=
-  existsb (fun p => vkey_eqb (fst p) (op, T) && voutcome_eqb (vrun (venv2 x y) (snd p)) o) venom_templates.
+  existsb (fun p => match p with (o', T', sh, _, t) =>
+                      vkey_eqb (o', T') (op, T) && (sh =? 0) && voutcome_eqb (vrun (venv2 x y) t) o end) venom_templates.
 
 Example venom_nonvacuous :
   let i8 := Build_nty 1 true false in
